@@ -583,6 +583,91 @@ SYNTH_STATIC = {
         return;
     }
 }''',
+    # find / position / find_map / skip_while-free consumers: pull items in order, stop at the first hit
+    '__iter_find': '''fn __iter_find(_1: &mut I, _2: F) -> Option {
+    bb0: {
+        _3 = __iter_next(copy _1) -> [return: bb1, unwind continue];
+    }
+    bb1: {
+        _4 = discriminant(_3);
+        switchInt(move _4) -> [0: bb5, otherwise: bb2];
+    }
+    bb2: {
+        _8 = &((_3 as Some).0: T);
+        _7 = &mut _2;
+        _6 = __call_value(copy _7, move _8) -> [return: bb3, unwind continue];
+    }
+    bb3: {
+        switchInt(move _6) -> [0: bb0, otherwise: bb4];
+    }
+    bb4: {
+        _0 = move _3;
+        return;
+    }
+    bb5: {
+        _0 = Option::<T>::None;
+        return;
+    }
+}''',
+    '__iter_position': '''fn __iter_position(_1: &mut I, _2: F) -> Option {
+    bb0: {
+        _9 = const 0_usize;
+        goto -> bb6;
+    }
+    bb6: {
+        _3 = __iter_next(copy _1) -> [return: bb1, unwind continue];
+    }
+    bb1: {
+        _4 = discriminant(_3);
+        switchInt(move _4) -> [0: bb5, otherwise: bb2];
+    }
+    bb2: {
+        _5 = move ((_3 as Some).0: T);
+        _7 = &mut _2;
+        _6 = __call_value(copy _7, move _5) -> [return: bb3, unwind continue];
+    }
+    bb3: {
+        switchInt(move _6) -> [0: bb7, otherwise: bb4];
+    }
+    bb7: {
+        _9 = Add(copy _9, const 1_usize);
+        goto -> bb6;
+    }
+    bb4: {
+        _0 = Option::<usize>::Some(copy _9);
+        return;
+    }
+    bb5: {
+        _0 = Option::<usize>::None;
+        return;
+    }
+}''',
+    '__iter_find_map': '''fn __iter_find_map(_1: &mut I, _2: F) -> Option {
+    bb0: {
+        _3 = __iter_next(copy _1) -> [return: bb1, unwind continue];
+    }
+    bb1: {
+        _4 = discriminant(_3);
+        switchInt(move _4) -> [0: bb5, otherwise: bb2];
+    }
+    bb2: {
+        _5 = move ((_3 as Some).0: T);
+        _7 = &mut _2;
+        _6 = __call_value(copy _7, move _5) -> [return: bb3, unwind continue];
+    }
+    bb3: {
+        _8 = discriminant(_6);
+        switchInt(move _8) -> [0: bb0, otherwise: bb4];
+    }
+    bb4: {
+        _0 = move _6;
+        return;
+    }
+    bb5: {
+        _0 = Option::<T>::None;
+        return;
+    }
+}''',
     '__try_fold': '''fn __try_fold(_1: &mut I, _2: B, _3: F) -> R {
     bb0: {
         _4 = __iter_next(copy _1) -> [return: bb1, unwind continue];
@@ -1939,6 +2024,12 @@ def model(ex, st, c, args):
         return AdaptV('filter', args[0], args[1])
     if c.endswith(' as Iterator>::any'):
         return ('BODY', synth_static(ex, '__iter_any'), args)
+    if c.endswith(' as Iterator>::find'):
+        return ('BODY', synth_static(ex, '__iter_find'), args)
+    if c.endswith(' as Iterator>::position'):
+        return ('BODY', synth_static(ex, '__iter_position'), args)
+    if c.endswith(' as Iterator>::find_map'):
+        return ('BODY', synth_static(ex, '__iter_find_map'), args)
     if c.endswith(' as Iterator>::try_fold'):
         raw = getattr(st, 'cur_raw', '') or ''
         st.try_kind = 'Option' if re.search(r'try_fold::<.*std::option::Option<|try_fold::<.*, Option<', raw) else 'Result'
